@@ -59,6 +59,7 @@ type mechEnv struct {
 	signer jose.Signer
 	jwks   []byte
 	ksPath string
+	tokens sync.Map // claims -> signed token
 }
 
 var (
@@ -117,7 +118,25 @@ func mechGetEnv() (*mechEnv, error) {
 			return
 		}
 
-		env.srv = httptest.NewServer(http.HandlerFunc(env.serve))
+		// the mechanisms reach the test server through http.DefaultTransport: keep one idle connection per
+		// concurrently running execution, so that a batch does not open (and leave in TIME-WAIT) a new loopback
+		// connection per request
+		if tr, ok := http.DefaultTransport.(*http.Transport); ok {
+			tr.MaxIdleConnsPerHost = 64
+			tr.MaxIdleConns = 256
+		}
+
+		ln, err := verifListen("127.0.0.1:0")
+		if err != nil {
+			mechEnvErr = err
+
+			return
+		}
+
+		env.srv = httptest.NewUnstartedServer(http.HandlerFunc(env.serve))
+		_ = env.srv.Listener.Close()
+		env.srv.Listener = ln
+		env.srv.Start()
 		env.host = strings.TrimPrefix(env.srv.URL, "http://")
 		mechEnvVal = env
 	})
@@ -470,7 +489,8 @@ func (d *mechDumper) dump(v reflect.Value, seen map[uintptr]bool, depth int) any
 
 		return res
 	case reflect.Map:
-		if v.IsNil() {
+		if v.IsNil() || (d.erased && v.Len() == 0) {
+			// structure only: no entries, however represented
 			return nil
 		}
 
@@ -495,7 +515,7 @@ func (d *mechDumper) dump(v reflect.Value, seen map[uintptr]bool, depth int) any
 
 		return map[string]any{"#": d.id(v.Pointer()), "m": list}
 	case reflect.Slice:
-		if v.IsNil() {
+		if v.IsNil() || (d.erased && v.Len() == 0) {
 			return nil
 		}
 
@@ -680,12 +700,21 @@ func (e *mechEnv) request(spec map[string]any) (*http.Request, error) {
 			cl["iss"] = "http://" + e.host
 		}
 
-		tok, err := jwt.Signed(e.signer).Claims(cl).Serialize()
-		if err != nil {
-			return nil, err
+		// ECDSA signatures are randomised: the same claims always travel as the same token, so that an endpoint
+		// echoing the token answers the same for the same request
+		key, _ := json.Marshal(cl)
+
+		tok, ok := e.tokens.Load(string(key))
+		if !ok {
+			fresh, err := jwt.Signed(e.signer).Claims(cl).Serialize()
+			if err != nil {
+				return nil, err
+			}
+
+			tok, _ = e.tokens.LoadOrStore(string(key), fresh)
 		}
 
-		req.Header.Set("Authorization", "Bearer "+tok)
+		req.Header.Set("Authorization", "Bearer "+tok.(string))
 	}
 
 	if tok := getStr(spec, "token"); tok != "" {
@@ -724,7 +753,28 @@ func mechNormalize(s string) string {
 	return s
 }
 
-func (e *mechEnv) exec(target any, spec map[string]any, cch cache.Cache) (out map[string]any) {
+// an execution that ends with a communication error says nothing about the mechanism (no case makes the test
+// server refuse a request): it is repeated, and reported as inconclusive if that does not help
+func (e *mechEnv) exec(target any, spec map[string]any, cch cache.Cache) map[string]any {
+	var out map[string]any
+
+	for attempt := 0; attempt < 4; attempt++ {
+		out = e.execOnce(target, spec, cch)
+		if k, _ := out["err"].(string); k != "communication" && k != "timeout" {
+			return out
+		}
+
+		time.Sleep(time.Duration(50*(attempt+1)) * time.Millisecond)
+	}
+
+	out["inconclusive"] = true
+
+	return out
+}
+
+func mechInconclusive(out map[string]any) bool { b, _ := out["inconclusive"].(bool); return b }
+
+func (e *mechEnv) execOnce(target any, spec map[string]any, cch cache.Cache) (out map[string]any) {
 	defer func() {
 		if r := recover(); r != nil {
 			out = map[string]any{"panic": fmt.Sprint(r)}
@@ -908,55 +958,80 @@ func runMech(c map[string]any) (any, error) {
 		return ref, ""
 	}
 
+	// what is reported about an object the factory has handed out for `spec` (a create operation, or an entry of
+	// the `creates` of a concurrent batch)
+	describe := func(spec map[string]any, created any, err error) (map[string]any, map[string]any) {
+		kind, id := getStr(spec, "kind"), getStr(spec, "id")
+		res, obs := map[string]any{}, map[string]any{}
+
+		if err != nil {
+			res["st"] = mechErrKind(err)
+			obs["error"] = err.Error()
+			handles = append(handles, nil)
+
+			return res, obs
+		}
+
+		proto, _ := mechCreate(factory, kind, id, nil)
+		h := &mechHandle{obj: created, proto: proto}
+		res["st"] = "ok"
+		res["alias"] = created == proto
+
+		if created != proto {
+			res["shared"] = mechSharing(proto, created)
+		}
+
+		ref, why := reference(kind, id, spec["eff"])
+		h.ref = ref
+
+		if ref == nil {
+			res["ref"] = false
+			obs["ref_error"] = why
+		} else {
+			a, b := erased.dumpObj(created), erased.dumpObj(ref)
+			res["ref"] = a == b
+
+			if a != b {
+				obs["variant"] = a
+				obs["reference"] = b
+			}
+		}
+
+		// the specification's effective configuration ("own setting always wins"), where it differs from the model's
+		if spec["eff_spec"] != nil {
+			sref, why := reference(kind, id, spec["eff_spec"])
+
+			switch {
+			case sref == nil:
+				obs["spec"] = "unloadable"
+				obs["spec_error"] = why
+			case erased.dumpObj(created) == erased.dumpObj(sref):
+				obs["spec"] = "same"
+			default:
+				obs["spec"] = "differs"
+				obs["spec_reference"] = erased.dumpObj(sref)
+				obs["spec_variant"] = erased.dumpObj(created)
+			}
+		}
+
+		handles = append(handles, h)
+		h.dump = dumper.dumpObj(created)
+
+		return res, obs
+	}
+
 	for _, o := range getArr(c, "ops") {
 		op := obj(o)
 
 		switch getStr(op, "op") {
 		case "create":
-			kind, id := getStr(op, "kind"), getStr(op, "id")
-
 			var conf config.MechanismConfig
 			if op["config"] != nil {
 				conf = env.mechConfig(op["config"])
 			}
 
-			created, err := mechCreate(factory, kind, id, conf)
-			res := map[string]any{}
-			obs := map[string]any{}
-
-			if err != nil {
-				res["st"] = mechErrKind(err)
-				obs["error"] = err.Error()
-				handles = append(handles, nil)
-			} else {
-				proto, _ := mechCreate(factory, kind, id, nil)
-				h := &mechHandle{obj: created, proto: proto}
-				res["st"] = "ok"
-				res["alias"] = created == proto
-
-				if created != proto {
-					res["shared"] = mechSharing(proto, created)
-				}
-
-				ref, why := reference(kind, id, op["eff"])
-				h.ref = ref
-
-				if ref == nil {
-					res["ref"] = false
-					obs["ref_error"] = why
-				} else {
-					a, b := erased.dumpObj(created), erased.dumpObj(ref)
-					res["ref"] = a == b
-
-					if a != b {
-						obs["variant"] = a
-						obs["reference"] = b
-					}
-				}
-
-				handles = append(handles, h)
-				h.dump = dumper.dumpObj(created)
-			}
+			created, err := mechCreate(factory, getStr(op, "kind"), getStr(op, "id"), conf)
+			res, obs := describe(op, created, err)
 
 			ch, details := changed()
 			res["changed"] = ch
@@ -980,15 +1055,23 @@ func runMech(c map[string]any) (any, error) {
 				res["ran"] = true
 				obs["out"] = json.RawMessage(env.canon(out))
 
-				if h.ref != nil {
+				switch {
+				case h.ref == nil:
+					res["ref"] = false
+				case mechInconclusive(out):
+					res["ref"] = true
+					obs["inconclusive"] = true
+				default:
 					rout := env.exec(h.ref, obj(op["req"]), nil)
-					res["ref"] = env.canon(out) == env.canon(rout)
+					res["ref"] = mechInconclusive(rout) || env.canon(out) == env.canon(rout)
+
+					if mechInconclusive(rout) {
+						obs["inconclusive"] = true
+					}
 
 					if res["ref"] == false {
 						obs["ref_out"] = json.RawMessage(env.canon(rout))
 					}
-				} else {
-					res["ref"] = false
 				}
 			}
 
@@ -1002,7 +1085,36 @@ func runMech(c map[string]any) (any, error) {
 			resList = append(resList, res)
 			obsList = append(obsList, obs)
 		case "par":
-			res, obs := env.parallel(factory, handles, op)
+			res, obs, made := env.parallel(factory, handles, op)
+
+			// the objects created during the batch are handed out now, in the order of `creates` (a batch without
+			// anything to execute is skipped as a whole; the numbers of its creations stay unused)
+			createdRes, createdObs := []any{}, []any{}
+
+			for j, cr := range getArr(op, "creates") {
+				if res["ran"] != true {
+					handles = append(handles, nil)
+
+					continue
+				}
+
+				var r, ob map[string]any
+
+				if j < len(made) {
+					r, ob = describe(obj(cr), made[j].obj, made[j].err)
+				} else {
+					r, ob = describe(obj(cr), nil, errors.New("not created"))
+				}
+
+				createdRes = append(createdRes, r)
+				createdObs = append(createdObs, ob)
+			}
+
+			if res["ran"] == true {
+				res["created"] = createdRes
+				obs["created"] = createdObs
+			}
+
 			ch, details := changed()
 			res["changed"] = ch
 
@@ -1020,11 +1132,16 @@ func runMech(c map[string]any) (any, error) {
 	return map[string]any{"res": resList, "obs": obsList}, nil
 }
 
+type mechMade struct {
+	obj any
+	err error
+}
+
 // n goroutines execute the given handles at the same time (handle and request chosen round-robin), `rounds`
-// times each, while another goroutine creates the variants listed under `creates`; every result is compared with
-// the result of the same execution done alone beforehand
+// times each, while two more goroutines create the variants listed under `creates` (alternately); every result is
+// compared with the result of the same execution done alone beforehand; the objects created are returned
 func (e *mechEnv) parallel(factory mechanisms.MechanismFactory, handles []*mechHandle, op map[string]any) (
-	map[string]any, map[string]any,
+	map[string]any, map[string]any, []mechMade,
 ) {
 	var live []*mechHandle
 
@@ -1039,7 +1156,7 @@ func (e *mechEnv) parallel(factory mechanisms.MechanismFactory, handles []*mechH
 	if len(live) == 0 {
 		res["ran"] = false
 
-		return res, obs
+		return res, obs, nil
 	}
 
 	reqs := getArr(op, "reqs")
@@ -1118,23 +1235,30 @@ func (e *mechEnv) parallel(factory mechanisms.MechanismFactory, handles []*mechH
 	}
 
 	creates := getArr(op, "creates")
-	created := 0
+	made := make([]mechMade, len(creates))
 
-	wg.Add(1)
+	const creators = 2
 
-	go func() {
-		defer wg.Done()
+	for g := 0; g < creators; g++ {
+		wg.Add(1)
 
-		<-start
+		go func() {
+			defer wg.Done()
 
-		for _, cr := range creates {
-			m := obj(cr)
+			<-start
 
-			if _, err := mechCreate(factory, getStr(m, "kind"), getStr(m, "id"), e.mechConfig(m["config"])); err == nil {
-				created++
+			for j := g; j < len(creates); j += creators {
+				m := obj(creates[j])
+
+				var conf config.MechanismConfig
+				if m["config"] != nil {
+					conf = e.mechConfig(m["config"])
+				}
+
+				made[j].obj, made[j].err = mechCreate(factory, getStr(m, "kind"), getStr(m, "id"), conf)
 			}
-		}
-	}()
+		}()
+	}
 
 	close(start)
 	wg.Wait()
@@ -1152,6 +1276,7 @@ func (e *mechEnv) parallel(factory mechanisms.MechanismFactory, handles []*mechH
 	}
 
 	ok := true
+	inconclusive := 0
 
 	var diffs []any
 
@@ -1160,6 +1285,12 @@ func (e *mechEnv) parallel(factory mechanisms.MechanismFactory, handles []*mechH
 		want := solo[fmt.Sprintf("%d/%d", hi, ri)]
 
 		for _, got := range results[j] {
+			if strings.Contains(got, `"inconclusive":true`) || strings.Contains(want, `"inconclusive":true`) {
+				inconclusive++
+
+				continue
+			}
+
 			if got != want {
 				ok = false
 
@@ -1170,14 +1301,23 @@ func (e *mechEnv) parallel(factory mechanisms.MechanismFactory, handles []*mechH
 		}
 	}
 
+	created := 0
+
+	for _, m := range made {
+		if m.err == nil && m.obj != nil {
+			created++
+		}
+	}
+
 	res["ran"] = true
 	res["par_ok"] = ok
 	obs["executions"] = n * rounds
 	obs["created_concurrently"] = created
+	obs["inconclusive"] = inconclusive
 
 	if len(diffs) != 0 {
 		obs["diffs"] = diffs
 	}
 
-	return res, obs
+	return res, obs, made
 }
